@@ -56,7 +56,7 @@ def euler_records(rnd, tier):
             gam = rnd.choice([1.4, 5.0 / 3.0, 1.2, 2.0, 1.01])
             rho, p = 10.0 ** rnd.uniform(-6, 6), 10.0 ** rnd.uniform(-6, 6)
             u = rnd.uniform(-5, 5) * math.sqrt(gam * p / rho) * rnd.choice([1.0, 1e-3, 0.0])
-        n = rnd.choice([1, 3, 4])
+        n = [1, 2, 3, 4, 5][(c // 3) % 5]      # every small cell count, in particular ncell = 2 = the number of velocity components
         try:
             if which == "euler2d":
                 model = fd.euler.euler2d(gamma=gam)
